@@ -8,6 +8,56 @@ import LitexProofs.Cdc.Monitor
 import LitexProofs.Stream.Basic
 import LitexProofs.Cdc.PulseSync
 import LitexProofs.Cdc.Capacity
+import LitexProofs.Cdc.Periodic
+import LitexProofs.Cdc.SyncReset
+/-
+  ══ INVENTORY of the code C05 is anchored in (session 2) ═══════════════════════════════════════════════════════
+  M = Lean model, T = theorems (this file), tie = how model and /repo are compared on every run
+  (A = exhaustive co-exploration of the reachable product, B = seeded lock-step co-simulation with edge-level
+  driving and injected per-bit resolutions, C = `call` comparison of a Python-level decision, S = structural).
+
+  litex/soc/interconnect/stream.py
+    _FIFOWrapper (record packing)      M Wrapper.lean packTok/unpackTok        T fifowrapper_roundtrip/_token_rel   tie A+B afifo_tok
+    AsyncFIFO.__init__ (depth rules)   M Glue.lean afifoCtor/afifoCapacity     T afifo_ctor_spec/_refuses/_capacity tie C afifo_ctor (grid 0..256,
+                                       (no rounding: non-2^k or <4 refused)                                            capacity MEASURED on the real module)
+    AsyncFIFO / migen AsyncFIFO(Buffered), GrayCounter, MultiReg
+                                       M AsyncFifo.lean afStep (any k, b)      T gray_*, afifo_inv, _no_rw_collision, _token_rel, _delivered_prefix,
+                                                                                 _capacity, _capacity_tight, _writable_exact, _eventually_readable(_buffered),
+                                                                                 _eventually_writable — all parametric in depth 2^k and payload type
+                                                                               tie A depth 4 (±buffered), B depths 4..128
+    ClockDomainCrossing: same domain   M Stream wire / pipeValid (C03 models)  T cdc_same_domain_wire_rel/_buffered_rel, cdc_kind_spec  tie A + C cdc_kind
+    ClockDomainCrossing: cd_from≠cd_to M afStep (renamed domains)              T as AsyncFIFO                         tie A/B through the real constructor
+      independent domain resets        M afStepR2 (rw, rr separately)          T (afStepR2_common: = afStepR when equal)  tie B afifo_rst2 [new]
+      with_common_rst, simulator's DummyAsyncResetSynchronizer (one level)
+                                       M afStepR / runRst                      T cdc_common_rst_inv, _token_rel (+ witness: one-edge pulse)  tie B afifo_rst
+      with_common_rst, vendor AsyncResetSynchronizer (two FDPE, async preset), ANY pulse length
+                                       M arsStep, crStep, crMasked             T ars_stretch, cdc_sync_rst_sim, cdc_sync_rst_token_rel (+ witness: pulse
+                                                                                 missing one clock)   tie B cdc_sync: real wiring + interpreted
+                                                                                 XilinxAsyncResetSynchronizerImpl flops (FDPE semantics trusted) [new]
+    Monitor(clock_domain ≠ sys)        M Monitor.lean monStep                  T monitor_latch_no_spurious, _exactly_once_partial, _latch_spacing,
+                                                                                 monitor_status_partial, _status_mixture (full), _status_coherent_partial
+                                                                                 (exactly which reads can be torn), monitor_torn_read_hull   tie A w=1, B w=4,32
+    Monitor(clock_domain = sys)        no crossing (C03/C12)
+  litex/gen/genlib/cdc.py
+    BusSynchronizer (width ≥ 2)        M BusSync.lean bsStep                   T bussync_coherent_partial, _no_spurious_timeout (4R+7, exact: witnesses
+                                                                                 at 4R+6), _coherent_of_ratio, _coherent_periodic (po ≤ R·pi),
+                                                                                 _coherent_default (t=128 ⇒ R=30), bussync_eventually   tie A w=2,3; B w=2..64
+    BusSynchronizer (width 1)          M bs1Step                               T bussync_width1                        tie A
+    users of BusSynchronizer           NONE in /repo (out-of-tree PHY cores; all rely on timeout=128) — see bussync_coherent_default
+    ElasticBuffer                      NOT modelled: no handshake, correct only for equal-frequency clocks within depth/2 of skew; no user in /repo
+    (migen) PulseSynchronizer          M psStep                                T pulsesync_no_spurious, _partial, _drain, _spacing (period ≥ R+2 i-cycles),
+                                                                                 _spacing_tight (exact for every R)     tie A; B spaced + minimum-gap [new];
+                                                                                 witness psTight replayed on the real module
+  litex/soc/interconnect/axi/axi_lite.py
+    AXILiteClockDomainCrossing         M AxiLite.lean axStep (5 FIFOs)         T axilite_cdc_rel, _direction, _channels_independent   tie B (two configs)
+    AXI (full) / Wishbone CDC          do not exist in /repo (AXI-full has no ClockDomainCrossing class; wishbone has none)
+  litex/soc/cores/uart.py
+    _get_uart_fifo, UART(phy_cd)       M Glue.lean uartFifoKind/uartTx/RxFifo  T uart_fifo_async_iff, uart_fifos_cross_iff   tie C + B through UART()
+    UARTBone/JTAG/video/hyperbus/icap  plain users of ClockDomainCrossing/AsyncFIFO with default or 2^k depths: covered by the rows above
+  Plain MultiReg users (GPIO, SPI, I2S, video timing CSRs, freqmeter Gray counter): single-bit or quasi-static
+    buses, no coherence claimed by the code; not part of C05 (the only multi-bit dynamic one, Monitor's status, is).
+  ═══════════════════════════════════════════════════════════════════════════════════════════════════════════════
+-/
 /-
   C05 — Clock-domain crossings never corrupt, drop, duplicate or reorder data.
 
@@ -315,6 +365,48 @@ theorem bussync_coherent_of_ratio (w t R : Nat) (ht : 4 * R + 7 ≤ t) (ins : Li
     (bsRun w t (bsInit t) ins).o ∈ 0 :: (bsInputs ins).map (· % 2 ^ w) :=
   bussync_coherent_partial w t ins (bussync_no_spurious_timeout w t R ht ins hb)
 
+/-! #### The drift bound in terms of clock frequencies, the default time-out, and the users in the tree
+
+  `IBurst R` is a property of the edge interleaving.  For two free-running periodic clocks (`perClocks pi po`:
+  i-clock period `pi`, o-clock period `po`, any phase `no < ni + po`) it follows from `po ≤ R * pi`, i.e. from
+  "the i clock is at most `R` times faster than the o clock" — no assumption in the other direction.
+  With the default `timeout = 128` the largest admissible `R` is 30 (`4 * 30 + 7 = 127 ≤ 128`).
+  LiteX itself contains NO instantiation of `BusSynchronizer` (nor of `ElasticBuffer`); every user is out of
+  tree (LiteDRAM/LiteEth/LitePCIe/… PHYs) and passes the default time-out: each such site is covered by
+  `bussync_coherent_default` whenever its i clock is at most 30 times faster than its o clock. -/
+
+/-- **bussync_coherent_periodic.**  Free-running clocks with `po ≤ R * pi` and a time-out of at least `4R + 7`
+    i-cycles: every word on `o` is a word that was on `i`, for every phase, every resolution and every input. -/
+theorem bussync_coherent_periodic (w t R pi po n ni no : Nat) (hpi : 1 ≤ pi) (hr : po ≤ R * pi)
+    (hph : no < ni + po) (ht : 4 * R + 7 ≤ t) (ins : List BSIn)
+    (hclk : bsClocks ins = perClocks pi po n ni no) :
+    (bsRun w t (bsInit t) ins).o ∈ 0 :: (bsInputs ins).map (· % 2 ^ w) :=
+  bussync_coherent_of_ratio w t R ht ins
+    (iburst_of_periodic pi po R hpi hr n ins ni no 0 hclk (by omega))
+
+/-- The default `timeout = 128`: coherent whenever the i clock is at most 30 times faster than the o clock. -/
+theorem bussync_coherent_default (w pi po n ni no : Nat) (hpi : 1 ≤ pi) (hr : po ≤ 30 * pi)
+    (hph : no < ni + po) (ins : List BSIn) (hclk : bsClocks ins = perClocks pi po n ni no) :
+    (bsRun w 128 (bsInit 128) ins).o ∈ 0 :: (bsInputs ins).map (· % 2 ^ w) :=
+  bussync_coherent_periodic w 128 30 pi po n ni no hpi hr hph (by omega) ins hclk
+
+/-- The time-out bound `4R + 7` of `bussync_no_spurious_timeout` is exact (kernel-checked for `R = 1, 2, 3`; an
+    exhaustive search of the model's control state confirms `R = 0..5`): with `t = 4R + 6` and the i clock exactly
+    `R + 1` times faster than the o clock, coincident edges resolving to the old value, the timer expires. -/
+def bsTightSched (R : Nat) : List BSIn :=
+  (List.replicate 6 (⟨true, true, false, false, 0, 0⟩ :: List.replicate R ⟨true, false, false, false, 0, 0⟩)).flatten
+
+example : IBurst 1 0 (bsTightSched 1) ∧ ¬ NoTimeout 2 (4 * 1 + 6) (bsInit (4 * 1 + 6)) (bsTightSched 1) := by decide
+example : IBurst 2 0 (bsTightSched 2) ∧ ¬ NoTimeout 2 (4 * 2 + 6) (bsInit (4 * 2 + 6)) (bsTightSched 2) := by decide
+example : IBurst 3 0 (bsTightSched 3) ∧ ¬ NoTimeout 2 (4 * 3 + 6) (bsInit (4 * 3 + 6)) (bsTightSched 3) := by decide
+
+/-- Non-vacuity of the periodic-clock hypothesis: `pi = 10`, `po = 30`, phase 7 is a `perClocks` schedule with
+    `R = 3`, on which a word crosses with `t = 19`. -/
+example :
+    let cl := perClocks 10 30 40 0 7
+    let ins : List BSIn := cl.map fun c => ⟨c.1, c.2, true, true, 3, 2⟩
+    bsClocks ins = cl ∧ (bsRun 2 19 (bsInit 19) ins).o = 2 := by decide
+
 /-- **bussync_eventually.**  "After the input has been stable for long enough the output reflects it":
     after any prefix `x`, let the input word be held at `v` during a continuation that consists of at least 12
     consecutive blocks in each of which both clocks have at least one edge (any interleaving, any resolution;
@@ -493,6 +585,95 @@ example :
     let s2 := runRst 2 false 0 s1 [⟨true, true, 0, 0, false, 0, false⟩]
     accepted 2 false 0 s2 [r] = [] ∧ delivered 2 false 0 s2 [r] = [0] := by decide
 
+/-! #### Reset pulses of ARBITRARY length: the two domains are released by their own reset synchronisers
+
+  On hardware each private domain's reset is the output of a vendor `AsyncResetSynchronizer` (two flops preset
+  asynchronously by `ResetSignal(cd_from) | ResetSignal(cd_to)`, modelled by `arsStep`; structure compared with
+  `XilinxAsyncResetSynchronizerImpl` on every run).  It stretches any pulse to two edges of its own clock, so the
+  two sides leave reset at DIFFERENT times, and the reset-less synchroniser flops of the slower side are still
+  stale when the faster side is already running.  `crStep` composes the FIFO with per-domain reset levels
+  (`afStepR2`, tied to `ClockDomainCrossing` with independently driven domain resets) and the two synchronisers. -/
+
+/-- Any pulse, however short (even one that covers no clock edge), holds the domain in reset through the next two
+    edges of its clock and releases it synchronously after the second. -/
+theorem ars_stretch (s : ARSState) (t : Bool) :
+    let s0 := arsStep s t true
+    arsOut s0 false = true ∧ arsOut (arsStep s0 true false) false = true ∧
+    arsOut (arsStep (arsStep s0 true false) true false) false = false ∧
+    arsStep s0 false false = s0 := by
+  cases t <;> simp [arsStep, arsOut]
+
+/-- **cdc_sync_rst_sim.**  From ANY state of FIFO and synchronisers: if the raw common reset is high while each
+    clock has at least one edge (`x`; nothing more is asked of the pulse length) and then low (`y`, arbitrary
+    traffic, any interleaving and resolution), the crossing — with the not-yet-flushed synchroniser flops of a
+    domain still in reset read as 0 (`patch`) — is, instant by instant, a freshly initialised FIFO whose producer
+    is held off while the write domain is in reset and whose consumer is held off while the read domain is
+    (`crMasked`).  Two edges of each clock after the pulse both domains are released and the states coincide
+    exactly, so every theorem above (token relation, capacity, progress) applies from the reset on. -/
+theorem cdc_sync_rst_sim (k : Nat) (b : Bool) (z : α) (S0 : CRState α) (x y : List (AFIn α))
+    (hx : 1 ≤ writeTicks x ∧ 1 ≤ readTicks x) :
+    let S1 := crRun k b z true S0 x
+    let S2 := crRun k b z false S1 y
+    let fresh := runFrom k b z { afInit k z with bdat := S1.f.bdat } (crMasked ⟨true, true⟩ ⟨true, true⟩ y)
+    patch S2.aw S2.ar S2.f = fresh ∧
+    (2 ≤ writeTicks y → 2 ≤ readTicks y → S2.f = fresh ∧ S2.aw = ⟨false, false⟩ ∧ S2.ar = ⟨false, false⟩) := by
+  intro S1 S2 fresh
+  have hne : x ≠ [] := by rintro rfl; simp [writeTicks] at hx
+  obtain ⟨hf, hars⟩ := crRun_true k b z x S0
+  obtain ⟨haw, har⟩ := hars hne
+  obtain ⟨hwz, hrz⟩ := rst_zero k b z x S0.f (Or.inl hx.1) (Or.inl hx.2)
+  rw [← hf] at hwz hrz
+  have hrun := sync_run k b z y S1 (by simp [S1, haw, ARSOk]) (by simp [S1, har, ARSOk])
+    (fun _ => hwz) (fun _ => hrz)
+  have e1 : patch S1.aw S1.ar S1.f = { afInit k z with bdat := S1.f.bdat } := by
+    simp only [S1, haw, har]; exact patch_zero k z _ hwz hrz
+  have hp : patch S2.aw S2.ar S2.f = fresh := by
+    simp only [S2, fresh]; rw [hrun, e1]; simp only [S1, haw, har]
+  refine ⟨hp, fun h2w h2r => ?_⟩
+  have rw' := ars_release_w k b z y S1 (Or.inl h2w)
+  have rr' := ars_release_r k b z y S1 (Or.inl h2r)
+  refine ⟨?_, rw', rr'⟩
+  have := hp
+  simp only [S2] at this ⊢
+  rw [rw', rr', patch_released] at this
+  exact this
+
+/-- … hence, counted from the reset, what is handed over is a prefix of what was accepted (hand-shakes while the
+    respective domain is still in reset are masked, i.e. not counted), for every continuation. -/
+theorem cdc_sync_rst_token_rel (k : Nat) (b : Bool) (z d : α) (hk : 1 ≤ k) (ins : List (AFIn α)) :
+    delivered k b z { afInit k z with bdat := d } ins <+: accepted k b z { afInit k z with bdat := d } ins := by
+  have hi := inv_init' k b z d
+  have hd := del_run k b z hk ins _ _ hi
+  have ha := acc_run k b z ins { afInit k z with bdat := d } gInit
+  simp only [gInit, List.nil_append, List.take_nil] at hd ha
+  rw [← hd, ha]
+  exact List.take_prefix _ _
+
+/-- Negative witness for the hypothesis "the pulse covers an edge of EACH clock" (depth 4): three tokens cross,
+    then a reset pulse covers one write edge but no read edge.  The write side is released after two write edges
+    while the read side has not even been reset: it compares its fresh pointer with the stale consume pointer 3
+    and accepts SEVEN tokens into four slots before any read edge. -/
+example :
+    let wr (d : Nat) : AFIn Nat := ⟨true, false, 0, 0, true, d, false⟩
+    let rd : AFIn Nat := ⟨false, true, 0, 0, false, 0, true⟩
+    let S0 : CRState Nat := ⟨runFrom 2 false 0 (afInit 2 0)
+      [wr 1, wr 2, wr 3, rd, rd, rd, rd, rd, ⟨true, false, 0, 0, false, 0, false⟩,
+       ⟨true, false, 0, 0, false, 0, false⟩], ⟨false, false⟩, ⟨false, false⟩⟩
+    let S1 := crRun 2 false 0 true S0 [⟨true, false, 0, 0, false, 0, false⟩]
+    let S2 := crRun 2 false 0 false S1 ((List.range 10).map fun n => wr (10 + n))
+    S0.f.cbin = 3 ∧ S1.f.pbin = 0 ∧ S2.f.pbin = 7 ∧ S2.f.cbin = 3 ∧ S2.aw = ⟨false, false⟩ := by decide
+
+/-- Non-vacuity of `cdc_sync_rst_sim`: a pulse of one coincident edge, then traffic; after release the token
+    written after the reset comes out. -/
+example :
+    let both (v : Bool) (d : Nat) (r : Bool) : AFIn Nat := ⟨true, true, 0, 0, v, d, r⟩
+    let S1 := crRun 2 false 0 true ⟨afInit 2 0, ⟨false, false⟩, ⟨false, false⟩⟩ [both false 0 false]
+    let y := [both true 9 true, both true 9 true, both true 5 true, both false 0 true, both false 0 true,
+              both false 0 true]
+    let S2 := crRun 2 false 0 false S1 y
+    S2.aw = ⟨false, false⟩ ∧ delivered 2 false 0 (afInit 2 0) (crMasked ⟨true, true⟩ ⟨true, true⟩ y) = [5] := by
+  decide
+
 /-! ### `_FIFOWrapper`: payload AND param (and first/last) cross unaltered
 
   `FTok` is the endpoint token; `packTok`/`unpackTok` are `fifo_in.raw_bits()` / `fifo_out.raw_bits()` with the
@@ -611,6 +792,50 @@ example :
       e true false 0 false false, e true false 0 true false, e false true 0 false false, e false true 0 false false,
       e true true 2 false false, e true false 0 false false]
     (monRun 2 monInit tr).s2 = 3 ∧ (monRun 2 monInit tr).cnt = 2 ∧ (monRun 2 monInit tr).latd = 2 := by decide
+
+/-- **monitor_status_mixture** (full statement, no hypothesis): whatever software reads is, bit by bit, taken from
+    two values the latched count has really held — `status = mix m a b` with `a`, `b` in the history of
+    `_count_latched` (reset value included).  In particular every bit that is equal in `a` and `b` is read
+    correctly (`monitor_torn_read_hull`), and the status never shows a bit pattern foreign to both. -/
+theorem monitor_status_mixture (w : Nat) (ins : List MonIn) :
+    ∃ a b m, a ∈ monLatdHist w monInit ins ∧ b ∈ monLatdHist w monInit ins ∧
+      (monRun w monInit ins).s2 = mix m a b := by
+  have h0 : IsMix ([] ++ [monInit.latd]) 0 := isMix_mem (by simp [monInit])
+  simpa [IsMix] using mon_status_mix w ins monInit [] h0 h0
+
+/-- Bounded error of a torn read: every bit set in both `a` and `b` is set in the mixture, every bit set in the
+    mixture is set in `a` or `b` (so `a &&& b ≤ status ≤ a ||| b` bit-wise). -/
+theorem monitor_torn_read_hull (m a b i : Nat) :
+    ((a &&& b).testBit i = true → (mix m a b).testBit i = true) ∧
+    ((mix m a b).testBit i = true → (a ||| b).testBit i = true) := mix_hull m a b i
+
+/-- **monitor_status_coherent_partial** — exactly which observations can be torn: only those sampled at a sys-clock
+    edge that coincides with an edge of the monitored clock at which a latch or reset event changes the latched
+    count.  On every schedule without such a coincidence (`NoCoincidentChange`; any interleaving and any resolution
+    otherwise) the status is always a value the latched count really held.  The negative witness above has such a
+    coincidence (checked below). -/
+theorem monitor_status_coherent_partial (w : Nat) (ins : List MonIn) (h : NoCoincidentChange w monInit ins) :
+    (monRun w monInit ins).s2 ∈ monLatdHist w monInit ins := by
+  simpa using mon_status_coherent w ins monInit [] h (by simp [monInit]) (by simp [monInit])
+
+/-- The torn-read witness violates exactly that hypothesis, and its torn value 3 is the mixture of the two
+    consecutive latched values 1 and 2 (`01`, `10`): inside the AND/OR hull `[0, 3]`, outside the history. -/
+example :
+    let e (ts tc : Bool) (mc : Nat) (la en : Bool) : MonIn := ⟨ts, tc, false, false, mc, false, la, en⟩
+    let tr : List MonIn := [e false true 0 false true, e true false 0 true false, e false true 0 false false,
+      e false true 0 false false, e false true 0 false false, e false true 0 false true, e true false 0 false false,
+      e true false 0 false false, e true false 0 true false, e false true 0 false false, e false true 0 false false,
+      e true true 2 false false, e true false 0 false false]
+    ¬ NoCoincidentChange 2 monInit tr ∧ (monRun 2 monInit tr).s2 ∉ monLatdHist 2 monInit tr ∧
+      (monRun 2 monInit tr).s2 = mix 2 1 2 := by decide
+
+/-- Non-vacuity of `monitor_status_coherent_partial`: a latch of count 1 crosses without coincidence. -/
+example :
+    let e (ts tc : Bool) (la en : Bool) : MonIn := ⟨ts, tc, false, false, 0, false, la, en⟩
+    let tr : List MonIn := [e false true false true, e true false true false, e false true false false,
+      e false true false false, e false true false false, e false true false false, e true false false false,
+      e true false false false]
+    NoCoincidentChange 1 monInit tr ∧ (monRun 1 monInit tr).s2 = 1 := by decide
 
 /-! ### Which primitive is selected (Python-level glue, tied through the driver's `call`) -/
 
